@@ -13,24 +13,28 @@ SUPPLY = [({}, 6), ({"line": 901}, 2), ({"col": 77}, 2), ({"nchar": 5}, 2), ({"f
 
 def gen_case(r, force=None):
     as_string = r.chance(0.3)
-    w = L.gen_world(r, as_string=as_string)
+    # a third of the worlds have no cross-references: Model/Build.v does not cover them, and on these worlds
+    # the whole pipeline (parser model + builder model + dispatch) is evaluated
+    w = L.gen_world(r, as_string=as_string, refless=r.chance(0.35))
     files = w["files"]
     for f in files:
         L.tokens_of(f, files)
-        L.layout(r, f, as_string)
+        L.layout(r, f, as_string and f.name != L.BUILTIN_NAME)
     kind = force or r.weighted([("obj", 6), ("match", 4)])
-    f = r.choice(files)
+    f = r.choice(L.loaded_files(w))
     proc = {"kind": kind, "wrap": r.chance(0.5)}
     if kind == "match" and not (f.nums or f.vers):
         kind = proc["kind"] = "obj"
     if kind == "obj":
-        o = r.choice(f.objs)
+        # the root object shares its start offset with its first child: favour it
+        roots = [x for x in f.objs if x["cls"] == "Model"]
+        o = r.choice(roots) if r.chance(0.2) else r.choice(f.objs)
         rule = o["cls"]
         if o["abstract"] and r.chance(0.3):
             rule = "Item"               # processor registered on the abstract rule of the list
         pos = f.off[o["first"]]
         pos_end = f.off[o["last"]] + len(f.toks[o["last"]])
-        proc.update({"rule": rule, "cls_name": o["cls"], "pos": pos, "pos_end": pos_end, "file": None if as_string else f.name})
+        proc.update({"rule": rule, "cls_name": o["cls"], "pos": pos, "pos_end": pos_end, "file": L.file_name_of(w, f)})
         text = f.seen[pos:pos_end]
     else:
         if f.vers and r.chance(0.4):
@@ -39,7 +43,7 @@ def gen_case(r, force=None):
         else:
             m = r.choice(f.nums)
             rule = "Num"
-        proc.update({"rule": rule, "value": m["value"], "pos": f.off[m["tok"]], "file": None if as_string else f.name})
+        proc.update({"rule": rule, "value": m["value"], "pos": f.off[m["tok"]], "file": L.file_name_of(w, f)})
         text = m["value"]
     style = r.weighted([("textx", 7), ("other", 3)])
     proc["style"] = style
@@ -48,7 +52,8 @@ def gen_case(r, force=None):
         proc["cls"] = r.choice(["semantic", "semantic", "base", "syntax"])
     else:
         proc["supplied"] = {}
-    return {"world": w, "proc": proc, "fidx": f.ix, "text": text}
+    # other (returning) processors on every common rule: their calls must not influence the failing one
+    return {"world": w, "proc": proc, "fidx": f.ix, "text": text, "benign": kind == "obj" and r.chance(0.5)}
 
 
 def coq_case(case):
@@ -68,6 +73,34 @@ def coq_case(case):
         fs, L.coq_nat(case["fidx"]), L.coq_nat(p["pos"]), core.coq_bool(p["wrap"]), r)
 
 
+PIPE_FUEL = 200
+
+
+def pipeline_applies(c):
+    """object case of a generated world whose target file has no cross-references (Model/Build.v does not model them)"""
+    return c["proc"]["kind"] == "obj" and not c["world"].get("corpus") and not c["world"]["files"][c["fidx"]].refs
+
+
+def pipeline_expr(case, o, k):
+    """the same case through Model/Peg.v + Model/Build.v: the object is found by class and start offset in the
+    model built from the TEXT; its end (hence nchar) is the builder's, not the generator's"""
+    import pegdump
+    import mmdump
+    p = case["proc"]
+    s = p["supplied"]
+    if p["style"] == "other":
+        r = "RaisesOther"
+    else:
+        fn = s.get("filename")
+        r = "(RaisesTx (er %s %s %s %s))" % ("None" if fn is None else "(Some %s)" % core.coq_str(fn),
+                                             L.coq_onat(s.get("line")), L.coq_onat(s.get("col")), L.coq_onat(s.get("nchar")))
+    return ("let fs := %s in show_opt show_out (process_loaded_object process_fills location_keys gL%d cL%d (orc_of %s) %d mL%d "
+            "(grp_of %s) %s %s fs %s %s %s %s %s)") % (
+        L.coq_fs(case["world"]), k, k, pegdump.coq_table(o["peg_table"]), PIPE_FUEL, k, mmdump.coq_gtable(o["peg_gtable"]),
+        core.coq_bool(o["mm_auto"]), core.coq_bool(o["mm_use_grp"]), L.coq_nat(case["fidx"]), core.coq_str(p["cls_name"]),
+        L.coq_nat(p["pos"]), core.coq_bool(p["wrap"]), r)
+
+
 def oracle(case, o):
     """The property on the implementation's outcome."""
     p = case["proc"]
@@ -85,7 +118,7 @@ def oracle(case, o):
     line, col = L.linecol(f.seen, p["pos"])
     s = p["supplied"]
     want = {"line": s.get("line", line), "col": s.get("col", col),
-            "filename": s.get("filename", None if w["string"] else f.name),
+            "filename": s.get("filename", L.file_name_of(w, f)),
             "nchar": s.get("nchar", (p["pos_end"] - p["pos"]) if p["kind"] == "obj" else None)}
     got = {k: o[k] for k in want}
     if got != want:
@@ -100,9 +133,16 @@ def corpus_case(j):
     return {"world": w, "proc": j["proc"], "fidx": [f.name for f in w["files"]].index(j["target_file"]), "text": j["text"]}
 
 
+def payload_of(case):
+    p = L.world_payload(case["world"])
+    p["proc"] = case["proc"]
+    p["benign"] = bool(case.get("benign"))
+    return p
+
+
 def describe(case):
     w = case["world"]
-    return {"string": w["string"], "files": {f.name: f.raw for f in w["files"]}, "proc": case["proc"],
+    return {"string": w["string"], "files": {f.name: f.raw for f in w["files"]}, "proc": case["proc"], "payload": payload_of(case),
             "target_file": w["files"][case["fidx"]].name, "text": case["text"]}
 
 
@@ -112,11 +152,11 @@ def run(chk):
     cases = [corpus_case(j) for _, j in L.corpus_files("C33")]      # corpus first
     cases += [gen_case(chk.rng.split("fixed%d" % i), k) for i, k in enumerate(["obj", "match"] * 3)]
     cases += [gen_case(chk.rng.split(i)) for i in range(n)]
-    payloads = []
-    for c in cases:
-        p = L.world_payload(c["world"])
-        p["proc"] = c["proc"]
-        payloads.append(p)
+    payloads = [payload_of(c) for c in cases]
+    for c, p in zip(cases, payloads):
+        if pipeline_applies(c):   # span recomputed by the parser + builder models
+            p["peg_text"] = c["world"]["files"][c["fidx"]].seen
+            p["want_mm"] = True
     chunks = [list(range(len(cases)))[i::core.NPROC] for i in range(core.NPROC)]
     chunks = [c for c in chunks if c]
     outs = core.run_impl_parallel("c33", [{"cases": [payloads[i] for i in ch]} for ch in chunks])
@@ -124,8 +164,25 @@ def run(chk):
     for ch, o in zip(chunks, outs):
         for i, x in zip(ch, o):
             res[i] = x
-    vals, errs = core.coq_eval("C33", L.IMPORTS, [coq_case(c) for c in cases])
+    import pegdump
+    import mmdump
     disagreements, failures = [], []
+    pipe = [i for i, c in enumerate(cases) if res[i].get("mm_info") is not None]
+    keyf = lambda i: json.dumps([res[i]["peg_dump"], res[i]["mm_info"]], sort_keys=True)
+    variants = sorted({keyf(i) for i in pipe})          # with / without user classes
+    defs = []
+    for k, v in enumerate(variants):
+        dj, mi = json.loads(v)
+        defs.append("Definition gL%d : grammar := %s.\nDefinition cL%d : config := %s.\nDefinition mL%d : list ninfo := %s." % (
+            k, pegdump.coq_grammar(dj), k, pegdump.coq_config(dj), k, mmdump.coq_mm(mi)))
+    pipe_exprs = [pipeline_expr(cases[i], res[i], variants.index(keyf(i))) for i in pipe]
+    vals, errs = core.coq_eval("C33", L.IMPORTS, [coq_case(c) for c in cases] + pipe_exprs, defs="\n".join(defs))
+    pipe_vals = dict(zip(pipe, vals[len(cases):]))
+    vals = vals[:len(cases)]
+    n_obj = sum(1 for c in cases if pipeline_applies(c))
+    if len(pipe) != n_obj:
+        disagreements.append({"case": "parser/metamodel dump", "model": "dumped %d of %d object cases: %s" % (
+            len(pipe), n_obj, [res[i].get("peg_unsupported") for i in range(len(cases)) if res[i].get("peg_unsupported")][:2])})
     if errs:
         disagreements.append({"case": "coq evaluation", "model": errs[:2]})
     for i, (c, mv) in enumerate(zip(cases, vals)):
@@ -138,19 +195,30 @@ def run(chk):
         chk.stat("raises %s%s" % ("TextXError" if p["style"] == "textx" else "foreign exception", " via textxerror_wrap" if p["wrap"] else ""))
         if p["supplied"]:
             chk.stat("processor supplies " + "+".join(sorted(p["supplied"])))
+        if c.get("benign"):
+            chk.stat("with returning processors on all other rules")
         if c["fidx"] != 0:
             chk.stat("target inside an imported file")
         L.world_stats(chk, w)
         ic = L.impl_canon(o)
         if mv is not None and ic != mv:
             disagreements.append({"case": describe(c), "impl": o, "model": mv, "impl_canon": ic})
+        if i in pipe_vals:
+            pv = pipe_vals[i]
+            if pv == "None":
+                chk.stat("pipeline model: object outside the modelled fragment / not found")
+                disagreements.append({"case": describe(c), "impl": o, "model (Peg.run + Build + dispatch)": pv})
+            else:
+                chk.stat("object span computed by the parser and builder models")
+                if pv is not None and pv != ic:
+                    disagreements.append({"case": describe(c), "impl": o, "model (Peg.run + Build + dispatch)": pv, "impl_canon": ic})
         bad = oracle(c, o)
         if bad:
             failures.append({"case": describe(c), "impl": o, "model": mv, "what": bad, "tags": []})
         if i % 45 == 3:
             chk.sample({"case": describe(c), "impl": {k: o.get(k) for k in ("status", "cls", "line", "col", "nchar", "filename")}, "model": mv})
     chk.cov["rule"] = ("generated 1-4 file models (from file, single-file also from a string; random layout with CRLF/CR, comments, non-ASCII) with one "
-                       "processor registered on a common rule (Def/Use/Uses/Box/Import/Model), on the abstract rule Item, or on a match rule (Num terminal, "
+                       "processor registered on a common rule (Def/Use/Uses/Rr/Box/Import/Model), on the abstract rule Item, or on a match rule (Num terminal, "
                        "Ver composite) that fails on ONE randomly chosen object/match, raising a TextXError (semantic/syntax/base) with none, some or all of "
                        "line/col/nchar/filename supplied, or a foreign exception; each with and without textxerror_wrap; non-trivial = target not on line 1 and "
                        "the case is inside the statement (not an unwrapped foreign exception); distinct by (file texts, processor spec)")
@@ -166,7 +234,7 @@ def replay(rep):
     c = rep.get("case") or {}
     if "files" not in c:
         return 0
-    payload = {"grammar": L.GRAMMAR, "string": c["string"], "files": [{"name": n, "raw": t} for n, t in c["files"].items()], "proc": c["proc"]}
+    payload = c.get("payload") or {"grammar": L.GRAMMAR, "string": c["string"], "files": [{"name": n, "raw": t} for n, t in c["files"].items()], "proc": c["proc"]}
     out = core.run_impl("c33", {"cases": [payload]})[0]
     print("implementation now:", json.dumps(out, default=str))
     return 0
